@@ -180,7 +180,13 @@ static void snapshot_client(hist_t *H, int ci, msess_t *m, int resumed)
         memcpy(m->secret, s->masterSecret, 48);
         m->secret_len = 48;
     }
-    m->last_issue_ms = env_now_ms();
+    if (!resumed || !IS_ID(H->mode))
+    {
+        /* a cached session lives for its lifetime counted from the full handshake that created it (resuming it does not
+           re-arm the lifetime: otherwise one session could be kept alive for ever); a resumption by ticket / PSK issues a
+           NEW ticket, whose own lifetime starts then */
+        m->last_issue_ms = env_now_ms();
+    }
     if (!resumed)
     {
         m->ems = !H->w.cfg.ems_off;
@@ -654,7 +660,7 @@ int main(int argc, char **argv)
     cfg.engine = "exhaustive enumeration of operation histories, each executed from scratch in a forked child on the real server key set + global session cache, compared with a reference model";
     cfg.rule = "case = (resumption mode, operation sequence up to the depth bound[, one bit flip or truncation of the stored session id / ticket / PSK identity tried after the sequence]); "
                "all sequences over the alphabet are enumerated (no pruning); credential edits are applied after the base histories {full(c0)} and {full(c0), resume(c0)}";
-    cfg.assumptions[0] = "clock pinned, advanced only by the tick operation (50000 s; lifetime 86400 s)";
+    cfg.assumptions[0] = "clock pinned, advanced only by the tick operations (50000 s, 100000 s; lifetime 86400 s); a cached session's lifetime counts from the full handshake that created it, a ticket's / PSK's from its (re)issue";
     cfg.assumptions[1] = "reference model: a completed handshake may be reported resumed by the server only if the client holds a genuine credential of a session that is unexpired since its last (re)issue, not invalidated by a fatal alert (cache mode), sealed under a ticket key still loaded (ticket modes), with matching extended-master-secret use; the server's secret must then equal the original";
     cfg.assumptions[2] = "the server declining to resume is never flagged";
     replay = mx_parse_args(argc, argv, &cfg);
@@ -694,6 +700,29 @@ int main(int argc, char **argv)
         memset(&cur, 0, sizeof(cur));
         cur.mode = mode;
         gen(mode, 0, md, &cur);
+        /* longer histories over the time-related sub-alphabet, from the state "c0 holds a session": lifetimes that are
+           re-armed, or not, by what happened in between (full(c0), then <= 4 (thorough 5) of resume(c0), tick, tick2, resume(c1)) */
+        {
+            static const int sub[4] = { O_R0, O_TICK, O_TICK2, O_R1 };
+            int L, n, k, idx, tmax = thorough ? 5 : 4;
+            for (L = md; L <= tmax; L++)        /* lengths <= md - 1 are part of the full enumeration above */
+            {
+                for (n = 1, k = 0; k < L; k++) n *= 4;
+                for (idx = 0; idx < n; idx++)
+                {
+                    case_t c;
+                    int v = idx;
+                    memset(&c, 0, sizeof(c));
+                    c.mode = mode; c.edit = -1; c.depth = L + 1; c.ops[0] = O_F0;
+                    for (k = 0; k < L; k++)
+                    {
+                        c.ops[1 + k] = sub[v % 4];
+                        v /= 4;
+                    }
+                    add_case(&c);
+                }
+            }
+        }
         /* credential edits after base histories */
         nb = probe_cred_bytes(mode);
         fprintf(stderr, "%s: credential of %d bytes\n", mname[mode], nb);
